@@ -1364,7 +1364,7 @@ class ValueOutput(Value):
         return hash("output")
 
     def __eq__(self, other):
-        return other == self
+        return other is self
 
     def __lt__(self, other):
         return str(self) < str(other)
